@@ -32,8 +32,48 @@ OUT = os.path.join(VERIF, "lean", "IofloModel", "Generated", "ImportGraph.lean")
 
 SRC_DUNDERS = ["__builtins__", "__cached__", "__doc__", "__file__", "__loader__", "__name__", "__package__", "__spec__"]
 NS_DUNDERS = ["__doc__", "__file__", "__loader__", "__name__", "__package__", "__path__", "__spec__"]
-CATCH = {"ImportError": "importError", "ModuleNotFoundError": "moduleNotFound", "AttributeError": "attributeError",
-         "NameError": "nameError", "Exception": "all", "BaseException": "all"}
+BUILTIN_EXC = sorted(n for n in dir(builtins) if isinstance(getattr(builtins, n), type)
+                     and issubclass(getattr(builtins, n), BaseException))
+EXC_CODE = {n: i + 1 for i, n in enumerate(BUILTIN_EXC)}     # 0 = a class the translator does not know
+
+
+def raise_class(name):
+    """model exception for `raise <builtin exception class>`"""
+    c = getattr(builtins, name, None) if name in EXC_CODE else None
+    if c is None:
+        return "other:0"
+    if issubclass(c, ModuleNotFoundError):
+        return "moduleNotFound"
+    if issubclass(c, ImportError):
+        return "importError"
+    if issubclass(c, AttributeError):
+        return "attributeError"
+    if issubclass(c, NameError):
+        return "nameError"
+    return "other:%d" % EXC_CODE[name]
+
+
+def catch_classes(name):
+    """what `except <builtin exception class>` catches, in the model's terms"""
+    h = getattr(builtins, name, None) if name in EXC_CODE else None
+    if h is None:
+        return []
+    if h in (BaseException, Exception):
+        return ["all"]
+    out = []
+    if issubclass(ImportError, h):
+        out.append("importError")
+    elif issubclass(ModuleNotFoundError, h):
+        out.append("moduleNotFound")
+    if issubclass(AttributeError, h):
+        out.append("attributeError")
+    if issubclass(NameError, h):
+        out.append("nameError")
+    for k in BUILTIN_EXC:
+        kc = getattr(builtins, k)
+        if issubclass(kc, h) and not issubclass(kc, (ImportError, AttributeError, NameError)):
+            out.append("named:%d" % EXC_CODE[k])
+    return out
 
 
 # ----------------------------------------------------------------------------------------------- discovery
@@ -129,6 +169,14 @@ def const_eval(node, env):
             return a[i]
         except Exception:
             raise Unknown
+    if (isinstance(node, ast.Call) and isinstance(node.func, ast.Name) and node.func.id == "range"
+            and "range" not in env and not node.keywords and 1 <= len(node.args) <= 3):
+        args = [const_eval(a, env) for a in node.args]
+        if all(isinstance(a, int) and not isinstance(a, bool) for a in args):
+            r = range(*args)
+            if len(r) <= 64:
+                return list(r)
+        raise Unknown
     if (isinstance(node, ast.Call) and isinstance(node.func, ast.Attribute) and node.func.attr == "format"
             and not node.keywords):
         s = const_eval(node.func.value, env)
@@ -164,6 +212,7 @@ class Extractor:
         self.package = modname if info["pkg"] else modname.rpartition(".")[0]
         self.env = {"__name__": modname, "__package__": self.package}
         self.notes = []
+        self.rebound = set()     # builtin exception class names the module rebinds itself
         self.dynamic = False
         self.future_annotations = False
         self.importlib_names = set()      # names bound to the importlib module
@@ -232,6 +281,17 @@ class Extractor:
             if tgt is not None:
                 out.append(tgt)
             return out
+        if isinstance(node, ast.IfExp):
+            out += self.uses(node.test, shadow)
+            try:
+                out += self.uses(node.body if const_eval(node.test, self.env) else node.orelse, shadow)
+            except Unknown:
+                pass                       # which branch is evaluated is not known: neither is checked
+            return out
+        if isinstance(node, ast.BoolOp):
+            return out + self.uses(node.values[0], shadow)        # the other operands may be skipped
+        if isinstance(node, ast.Compare):
+            return out + self.uses(node.left, shadow) + self.uses(node.comparators[0], shadow)
         if isinstance(node, ast.NamedExpr):
             out += self.uses(node.value, shadow)
             out.append(["def", node.target.id])
@@ -270,7 +330,7 @@ class Extractor:
             return ["unknown", call.lineno]
         if name.startswith("."):
             if not isinstance(pkg, str):
-                return ["raise", call.lineno, "other"]      # TypeError: package argument required
+                return ["raise", call.lineno, "other:%d" % EXC_CODE["TypeError"]]   # package argument required
             level = len(name) - len(name.lstrip("."))
             bits = pkg.split(".")
             if level - 1 > len(bits) - 1:
@@ -288,6 +348,8 @@ class Extractor:
                 classlocals.add(t.id)
             else:
                 out.append(["def", t.id])
+                if t.id in EXC_CODE:
+                    self.rebound.add(t.id)
         elif isinstance(t, (ast.Tuple, ast.List)):
             for e in t.elts:
                 self.bind_targets(e, out, shadow, classlocals)
@@ -314,6 +376,7 @@ class Extractor:
         for e in evs:
             k = e[0]
             if k in ("def", "defall"):
+                self.dynamic = True      # a binding that may or may not happen: the namespace is not exact
                 out.append(["def", e[1]] if k == "def" else ["def", "__all__"])
             elif k in ("imp", "from", "star", "unknown"):
                 out.append(["unknown", e[1]])
@@ -459,6 +522,11 @@ class Extractor:
             return out
         if isinstance(s, ast.While):
             out += self.uses(s.test, shadow)
+            try:
+                if not const_eval(s.test, self.env):
+                    return out + self.block(s.orelse, cl, maybe)
+            except Unknown:
+                pass
             self.notes.append("%s:%d while loop at import time" % (self.mod, s.lineno))
             return out + self.block(s.body, cl, True) + self.block(s.orelse, cl, True)
         if isinstance(s, (ast.With, ast.AsyncWith)):
@@ -492,7 +560,9 @@ class Extractor:
             return out
         if isinstance(s, ast.Raise):
             out += self.uses(s.exc, shadow) + self.uses(s.cause, shadow)
-            return out + [["raise", s.lineno, "other"]]
+            x = s.exc.func if isinstance(s.exc, ast.Call) else s.exc
+            cls = raise_class(x.id) if isinstance(x, ast.Name) and x.id not in self.rebound else "other:0"
+            return out + [["raise", s.lineno, cls]]
         if isinstance(s, ast.Assert):
             return self.uses(s.test, shadow)
         if isinstance(s, ast.Match):
@@ -509,8 +579,10 @@ class Extractor:
         elts = t.elts if isinstance(t, ast.Tuple) else [t]
         out = []
         for e in elts:
-            if isinstance(e, ast.Name) and e.id in CATCH:
-                out.append(CATCH[e.id])
+            if isinstance(e, ast.Name) and e.id not in self.rebound:
+                for c in catch_classes(e.id):
+                    if c not in out:
+                        out.append(c)
         return out
 
     def run(self):
@@ -522,7 +594,24 @@ class Extractor:
         with warnings.catch_warnings():
             warnings.simplefilter("ignore")
             tree = ast.parse(src, self.info["path"])
-        return self.block(tree.body)
+        pre = []
+        if self.module_level_annotation(tree.body):
+            pre.append(["def", "__annotations__"])       # SETUP_ANNOTATIONS runs before the first statement
+        return pre + self.block(tree.body)
+
+    def module_level_annotation(self, stmts):
+        for s in stmts:
+            if isinstance(s, ast.AnnAssign):
+                return True
+            if isinstance(s, (ast.FunctionDef, ast.AsyncFunctionDef, ast.ClassDef)):
+                continue
+            for f in ("body", "orelse", "finalbody"):
+                if self.module_level_annotation(getattr(s, f, []) or []):
+                    return True
+            for h in getattr(s, "handlers", []) or []:
+                if self.module_level_annotation(h.body):
+                    return True
+        return False
 
 
 # ----------------------------------------------------------------------------------------------- measurement
@@ -673,6 +762,9 @@ def build(repo):
                 idents.add(e[1])
             elif k == "defall":
                 idents.update(e[1])
+                if mods[m]["pkg"]:
+                    for n_ in e[1]:
+                        nodes.add(m + "." + n_)
             elif k == "del":
                 idents.add(e[2])
     # chains rooted at a name bound by `import x.y` in the same module name further candidate modules
@@ -799,7 +891,8 @@ def build(repo):
                                       "body": [], "fail": None}
                 else:
                     cls = ("moduleNotFound" if "ModuleNotFoundError" in mro else "importError" if "ImportError" in mro
-                           else "attributeError" if "AttributeError" in mro else "nameError" if "NameError" in mro else "other")
+                           else "attributeError" if "AttributeError" in mro else "nameError" if "NameError" in mro
+                           else "other:%d" % EXC_CODE.get(mro[0] if mro else "", 0))
                     graph_nodes[n] = {"parent": parent, "exists": True, "pkg": False, "ns": False, "ioflo": False,
                                       "body": [["raise", 0, cls]], "fail": mro[:1]}
             else:
@@ -865,8 +958,13 @@ def lean_text(g):
         return "none" if x is None else "(some %s)" % x
 
     def exc(c):
+        if c.startswith("other:"):
+            return "(.other %s)" % c[6:]
         # a measured ModuleNotFoundError naming some module outside the graph: an id no node has
         return "." + c if c != "moduleNotFound" else "(.moduleNotFound %d)" % len(names)
+
+    def catch(c):
+        return "(.named %s)" % c[6:] if c.startswith("named:") else "." + c
 
     def chain(t):
         out = []
@@ -875,7 +973,10 @@ def lean_text(g):
             t = g["nodes"][t]["parent"]
         return L(out)
 
+    owner_box = [""]
+
     def ev(e):
+        owner = owner_box[0]
         k = e[0]
         if k == "imp":
             return ".imp %d %s %s %s" % (e[1], chain(e[2]), opt(None if e[3] is None else iid[e[3]]), "true" if e[4] else "false")
@@ -891,7 +992,7 @@ def lean_text(g):
         if k == "defmod":
             return ".defMod %d %d" % (iid[e[1]], nid[e[2]])
         if k == "defall":
-            return ".defAll %s" % L(str(iid[n]) for n in e[1])
+            return ".defAll %s" % L("(%d, %d)" % (iid[n], nid.get(owner + "." + n, len(names))) for n in e[1])
         if k == "del":
             return ".del_ %d %d" % (e[1], iid[e[2]])
         if k == "ext":
@@ -901,7 +1002,7 @@ def lean_text(g):
         if k == "unknown":
             return ".unknown %d" % e[1]
         if k == "try":
-            hs = L("(%s, %s)" % (L("." + c for c in h[0]), evs(h[1])) for h in e[2])
+            hs = L("(%s, %s)" % (L(catch(c) for c in h[0]), evs(h[1])) for h in e[2])
             return ".try_ %s %s %s %s" % (evs(e[1]), hs, evs(e[3]), evs(e[4]))
         raise ValueError(e)
 
@@ -942,6 +1043,7 @@ def lean_text(g):
         nd = g["nodes"][n]
         i = nid[n]
         out.append("/-- %s -/" % n)
+        owner_box[0] = n
         body = merge(nd["body"])
         chunks = [body[j:j + 40] for j in range(0, len(body), 40)] or [[]]
         for c, ch in enumerate(chunks):
